@@ -11,11 +11,10 @@ or (`reuse = true`) `conv.process(overwrite=…)` once more on the converter OBJ
 (`sr`/`ap_file`, `check_completed`, `already_exists`, the options) persist between calls:
 
   __init__               self.sr = spikeglx.Reader(ap_file, sort=False); self.check_metadata(); self.init_params()
-  compress_NP21          self.ap_file = cbin_file; self.sr = spikeglx.Reader(self.ap_file)      -- default sort=True
+  compress_NP21          self.ap_file = cbin_file; self.sr = spikeglx.Reader(self.ap_file, sort=False)
   init_params            self.check_completed = False          (never reset by process())
   _prepare_files_*       self.already_exists = False           (reset on every call)
-  delete_NP24            self.sr.close(); self.ap_file.unlink()   -- the object keeps the closed reader: a later read of the
-                         np.memmap of a .bin is a segmentation fault; an mtscomp reader of a .cbin still answers
+  process                if not self.ap_file.exists(): return 0          -- e.g. after this object's own delete_NP24
 
 on a disk that holds the original recording `probe00/X.ap.{bin|cbin}` (+ `.meta`, `.ch`), and -- for NP2.4 --
 the sibling folders `probe00a … probe00d` with `X.ap.*` and `X.lf.*`, or -- for NP2.1 -- the `X.lf.*` files
@@ -161,11 +160,6 @@ structure Obj where
   onShank : Bool
   /-- the file `self.sr` / `self.ap_file` point at -/
   srForm : Orig
-  /-- `compress_NP21` of this object has re-opened the reader with `spikeglx.Reader(self.ap_file)`, i.e. with the default
-  `sort=True`: from then on `self.sr[…]` returns the channels in sorted, not in acquisition order -/
-  srSorted : Bool
-  /-- `delete_NP24` of this object has closed `self.sr` and unlinked that file -/
-  srClosed : Bool
   /-- `self.check_completed` -/
   checkCompleted : Bool
   /-- `self.already_exists` as left by the last `_prepare_files_*` (false before the first call) -/
@@ -194,8 +188,6 @@ inductive Err
   | injected      -- the environment's exception
   | assertion     -- "data in original file and split files do no match"
   | noOriginal    -- `spikeglx.Reader(ap_file)` in the constructor: FileNotFoundError
-  | crash         -- the interpreter dies (segmentation fault reading the closed np.memmap of a deleted .bin)
-  | fileNotFound  -- `self.ap_file.unlink()` in delete_NP24 on a file this object has already unlinked
   | outOfScope    -- a call this model does not describe (never generated by the harness)
 deriving DecidableEq, Repr
 
@@ -300,9 +292,6 @@ def verifyReads (cfg : Cfg) (call : Call) : Nat :=
   | some x => if splitDiffers cfg call then min ((x.kv + 1) * (1 + cfg.n)) (nverif cfg * (1 + cfg.n)) else nverif cfg * (1 + cfg.n)
   | none => nverif cfg * (1 + cfg.n)
 
-/-- `self.sr[first:last, …]` (first statement of the window loop) on the closed memmap of a deleted `.bin`. -/
-def readCrashes (ob : Obj) : Bool := ob.srClosed && (ob.srForm == .bin)
-
 /-- `_process_NP24` of the object `ob` (built on the original). -/
 def process24 (cfg : Cfg) (ob : Obj) (call : Call) (s : Disk) : Disk × Obj × Result :=
   -- self.shank_info = self._prepare_files_NP24(overwrite=overwrite)      (sets self.already_exists afresh)
@@ -310,9 +299,7 @@ def process24 (cfg : Cfg) (ob : Obj) (call : Call) (s : Disk) : Disk × Obj × R
   let ob1 := { ob with alreadyExists := alreadyExists24 cfg.n call.overwrite s }
   -- if self.already_exists: return 0
   if alreadyExists24 cfg.n call.overwrite s then (s1, ob1, .ret 0) else
-  -- for first, last in wg.firstlast: chunk_ap = self.sr[first:last, …] …
-  if readCrashes ob then (s1, ob1, .raised .crash) else
-  -- … self._split2shanks(ap); self._split2shanks(lf)
+  -- for first, last in wg.firstlast: … self._split2shanks(ap); self._split2shanks(lf)
   let tot := 2 * nproc cfg
   let j := stopAt call.interrupt Point.splitIdx tot
   let s2 := windows24 cfg call j s1
@@ -335,18 +322,12 @@ def process24 (cfg : Cfg) (ob : Obj) (call : Call) (s : Disk) : Disk × Obj × R
   if ob.opts.deleteOriginal then
     if call.interrupt = some .delete then (s4, ob2, .raised .injected) else
     -- if self.check_completed and self.delete_original: self.sr.close(); self.ap_file.unlink()
-    if ob2.checkCompleted && ob.opts.deleteOriginal then
-      if ob.srClosed then (s4, ob2, .raised .fileNotFound)
-      else ({ s4 with orig := .absent }, { ob2 with srClosed := true }, .ret 1)
+    if ob2.checkCompleted && ob.opts.deleteOriginal then ({ s4 with orig := .absent }, ob2, .ret 1)
     else (s4, ob2, .ret 1)
   else (s4, ob2, .ret 1)
 
 /-- `lf_file.exists() or lf_cbin_file.exists()` -/
 def lfExists (s : Disk) : Bool := (s.lf.bin != .absent) || s.lf.cbin.isSome
-
-/-- What an NP2.1 run of `ob` writes to the lf file: derived from the channels in acquisition order, or -- through the
-re-opened sorted reader -- from permuted channels, which is not what the lf metadata describes. -/
-def lfData (cfg : Cfg) (ob : Obj) : Data := if ob.srSorted then .bad else .good cfg.c
 
 /-- `_process_NP21` of the object `ob`.  `post_check` and `delete_original` are not consulted by this path; the object's
 reader follows the original when `compress_NP21` replaces the `.bin` by the `.cbin`. -/
@@ -356,7 +337,7 @@ def process21 (cfg : Cfg) (ob : Obj) (call : Call) (s : Disk) : Disk × Obj × R
   if lfExists s && !call.overwrite then (s, ob1, .ret 0) else
   let tot := nproc cfg
   let j := stopAt call.interrupt Point.splitIdx tot
-  let s2 := { s with lf := { s.lf with bin := written tot j (lfData cfg ob) (!ob.srSorted || j == 0) } }
+  let s2 := { s with lf := { s.lf with bin := written tot j (.good cfg.c) true } }
   if j < tot then (s2, ob1, .raised .injected) else
   -- self._writemetadata_lf(): one write_meta_data call
   let m := stopAt call.interrupt Point.metaIdx 1
@@ -371,8 +352,8 @@ def process21 (cfg : Cfg) (ob : Obj) (call : Call) (s : Disk) : Disk × Obj × R
         if 0 < q then { s3 with orig := .cbin, och := true, otmp := false } else { s3 with otmp := true }
       else s3
     -- self.ap_file = cbin_file; self.sr = spikeglx.Reader(self.ap_file)
-    let ob2 := if ob.srForm = .bin ∧ 0 < q then { ob1 with srForm := .cbin, srSorted := true } else ob1
-    let s5 := { s4 with lf := compressFileSet call.overwrite (lfData cfg ob) (ncall - 1) q s4.lf }
+    let ob2 := if ob.srForm = .bin ∧ 0 < q then { ob1 with srForm := .cbin } else ob1
+    let s5 := { s4 with lf := compressFileSet call.overwrite (.good cfg.c) (ncall - 1) q s4.lf }
     if q < ncall then (s5, ob2, .raised .injected) else (s5, ob2, .ret 1)
   else (s3, ob1, .ret 1)
 
@@ -393,15 +374,21 @@ def construct (cfg : Cfg) (call : Call) (s : Disk) : Except Err Obj :=
     -- check_metadata: the shank's meta carries "NP2.4_shank"
     match cfg.kind with
     | .np24 => if targetComplete s then
-        .ok { opts := call.opts, onShank := true, srForm := .bin, srSorted := false, srClosed := false, checkCompleted := false, alreadyExists := false }
+        .ok { opts := call.opts, onShank := true, srForm := .bin, checkCompleted := false, alreadyExists := false }
       else .error .outOfScope
     | _ => .error .outOfScope
   else if origReadable s then
-    .ok { opts := call.opts, onShank := false, srForm := s.orig, srSorted := false, srClosed := false, checkCompleted := false, alreadyExists := false }
+    .ok { opts := call.opts, onShank := false, srForm := s.orig, checkCompleted := false, alreadyExists := false }
   else .error .noOriginal
+
+/-- `self.ap_file.exists()`: the shank file of an already split object is never touched; the original's data file is there
+in the form the object was built on (or compressed it to). -/
+def apFileExists (ob : Obj) (s : Disk) : Bool := ob.onShank || (s.orig == ob.srForm)
 
 /-- `conv.process(overwrite)` on the object `ob`. -/
 def processObj (cfg : Cfg) (ob : Obj) (call : Call) (s : Disk) : Disk × Obj × Result :=
+  -- process: if not self.ap_file.exists(): return 0
+  if !apFileExists ob s then (s, ob, .ret 0) else
   -- _process_NP24: if self.already_processed: return 0
   if ob.onShank then (s, ob, .ret 0) else
   match cfg.kind with
